@@ -10,7 +10,11 @@ PROPS = {}
 # ------------------------------------------------------------------------------------------------
 UNITS["core"] = dict(
     name="core",
-    stage=[("repo",), ("crate", "harness/core"), ("lock",), SYM, ("shared", "models/mcodec.rs", "src/mcodec.rs")],
+    stage=[("repo",), ("crate", "harness/core"), ("lock",), SYM, ("shared", "models/mcodec.rs", "src/mcodec.rs"),
+           # p2panda-stream's ingest_operation, verbatim (tests stripped: they need SQLite); its store is a model (harness/core/src/ingest.rs)
+           ("mount", "p2panda-stream/src/ingest/operation.rs", "src/staged/ingest_operation.rs",
+            [(r"^//!", "//", "*"), (r"\n#\[cfg\(test\)\]\nmod tests \{.*\Z", "\n", 1, "S")])],
+    repo_paths=["src/staged/"],
     # Kani's memset check on `mem::zeroed::<()>()` in Header::zero_sized_extensions (a zero-sized write through a
     # dangling-but-aligned pointer, which Rust defines as a no-op): spurious, filtered by its exact identity
     ignore_checks=[r"memset destination region writeable @ .*core/src/ptr/mod\.rs:\d+ in std::ptr::write_bytes::<\(\)>"],
@@ -24,6 +28,7 @@ UNITS["core"] = dict(
         ("p2panda-core/src/prune.rs", "validate_prunable_backlink", r"pub fn validate_prunable_backlink"),
         ("p2panda-core/src/operation.rs", "validate_backlink", r"pub fn validate_backlink"),
         ("p2panda-core/src/timestamp.rs", "HybridTimestamp::increment", r"pub fn increment\(self\) -> Self \{", r"impl HybridTimestamp"),
+        ("p2panda-stream/src/ingest/operation.rs", "ingest_operation", r"pub async fn ingest_operation"),
     ],
     harnesses=[
         dict(name="c02::roundtrip_shape_00", prop="C02", timeout=900, encodes="Serialize/Deserialize for Header<()>, Header::{to_bytes,verify}, TryFrom<&[u8]> for Header on the model codec",
@@ -54,6 +59,17 @@ UNITS["core"] = dict(
              bounds="arbitrary stored latest seq < u32::MAX, arbitrary incoming seq, backlink absent/pred-hash/other"),
         dict(name="c05::newer_prune_point_accepted", prop="C05", timeout=120,
              encodes="validate_prunable_backlink (prune flag set)", bounds="as above"),
+        dict(name="ingest::ingest_accepts_only_extensions", prop="C03", timeout=600,
+             encodes="ingest_operation (real async fn over a model store) -> validate_prunable_backlink -> validate_backlink",
+             bounds="one ingest from an arbitrary stored head of one log (or an empty store); incoming operation: own/other author, own/other log, all u32 seq, backlink = head hash / other, both prune flags, known/unknown id, authentic/tampered"),
+        dict(name="ingest::ingest_accepts_extensions", prop="C03", timeout=600,
+             encodes="as ingest_accepts_only_extensions (acceptance side)", bounds="as above, unknown id, authentic"),
+        dict(name="ingest::ingest_never_below_stored_height", prop="C05", timeout=600,
+             encodes="ingest_operation -> validate_prunable_backlink, both prune flags, against the stored head of the operation's own log",
+             bounds="as ingest_accepts_only_extensions, own author and log"),
+        dict(name="ingest::ingest_validates_first_and_rejects_cleanly", prop="C01", timeout=600,
+             encodes="ingest_operation: order of validate_operation / begin / insert / commit; rollback on rejection",
+             bounds="as ingest_accepts_only_extensions; validate_operation's verdict = the harness' tampered flag"),
         dict(name="c18::increment_is_strict", prop="C18", tier="quick", timeout=60,
              encodes="HybridTimestamp::increment, LamportTimestamp::increment, Ord for HybridTimestamp",
              bounds="all u64 timestamp, lamport < u64::MAX, all u64 wall-clock readings"),
@@ -79,13 +95,15 @@ _CORE_TB = ["Kani 0.68 / CBMC 6.11 / cadical",
 PROPS["C03"] = dict(
     units=["core"], trusted_base=_CORE_TB,
     assumptions=["stored latest seq < u32::MAX (past.seq_num + 1 overflows there: panic in debug, wrap in release)",
-                 "ingest passes the store's latest entry of the operation's own (author, log) and its prune flag (glue in the async fn, not encoded)"],
-    bounds="one inductive step from an arbitrary stored latest entry; all u32 sequence numbers; 3 backlink shapes (none / hash of predecessor / any other hash)",
-    outside="ingest_operation's async glue (single transaction around check+insert, dedup by id), SQLite ORDER BY seq_num DESC, equivocating authors",
+                 "ingest harnesses: the store is a model (one stored log with an arbitrary head; lookups by (author, log); insert is tentative until commit; store calls never fail or pend); "
+                 "validate_operation is stubbed to the harness' tampered flag there (it is the subject of C01's own harnesses)"],
+    bounds="one inductive step from an arbitrary stored latest entry; all u32 sequence numbers; 3 backlink shapes (none / hash of predecessor / any other hash); "
+           "ingest harnesses: own/other author, own/other log, both prune flags, known/unknown id",
+    outside="store failures and cancellation inside ingest_operation, SQLite itself (ORDER BY seq_num DESC, transaction isolation), equivocating authors",
     level_text=("Bounded model checking of the real validate_prunable_backlink/validate_backlink as ONE INDUCTIVE STEP from an arbitrary stored "
                 "latest entry: accepted => exactly the next hash-linked entry; restart, gap, wrong author, wrong backlink are rejected; the "
                 "correctly linked next operation is accepted. Covers every u32 seq pair instead of the in-order log the tests feed."),
-    level_note="Trusted: Kani/CBMC; Header::hash stubbed to a symbolic constant (collision-freeness assumed); the async ingest glue and SQLite are outside the claim.",
+    level_note="Trusted: Kani/CBMC; Header::hash stubbed to a symbolic constant (collision-freeness assumed); the real async ingest_operation runs over a model store; SQLite is outside the claim.",
 )
 PROPS["C01"] = dict(
     units=["core"],
@@ -94,11 +112,11 @@ PROPS["C01"] = dict(
                              "Hash::digest stub: injective on bodies of <= 4 bytes"],
     assumptions=["E = () (no extensions) in these harnesses", "bodies <= 4 bytes"],
     bounds="all header field values; 8 presence patterns (well-formedness), 4 well-formed presence shapes x 7 single-field mutations (tamper); bodies <= 4 bytes",
-    outside="ingest_operation's async glue (validate before begin, store unchanged on Err, StreamEvent reporting): the async state machine exhausts 56 GB in CBMC; Operation.hash == header.hash() is checked neither by the code nor demanded by the property",
+    outside="StreamEvent reporting of the node stream (p2panda/src/streams/stream.rs: tokio + SQLite); store failures inside ingest_operation; Operation.hash == header.hash() is checked neither by the code nor demanded by the property",
     level_text=("Bounded model checking of the real validate_operation/validate_header/Header::verify with p2panda's own Serialize impl on a model codec and an "
                 "idealised signature: accepted => signed, verified, version 1, payload/backlink info consistent, body matches; every single-field mutation of an honestly "
                 "signed header (incl. any signature byte) and every 1-byte/length change of a body is rejected — for ALL field values, not the handful the tests sample."),
-    level_note="Trusted: Kani/CBMC; ciborium replaced by an injective model codec; Ed25519 and BLAKE3 idealised; the async ingest glue is outside the claim.",
+    level_note="Trusted: Kani/CBMC; ciborium replaced by an injective model codec; Ed25519 and BLAKE3 idealised; ingest_operation runs over a model store with validate_operation's verdict as a symbolic flag (validated first, rejected => nothing written).",
 )
 PROPS["C02"] = dict(
     units=["core"],
@@ -118,7 +136,7 @@ PROPS["C05"] = dict(
     units=["core"], trusted_base=_CORE_TB,
     assumptions=["stored latest seq < u32::MAX", "heights never decrease (decided under C03), so after ingesting a prune point N the stored latest seq is >= N"],
     bounds="one step from an arbitrary stored latest entry; all u32 sequence numbers; both prune flags",
-    outside="ingest_operation's async glue, LogPrune's SQL DELETE, SQLite",
+    outside="LogPrune's SQL DELETE, SQLite, store failures inside ingest_operation",
     level_text=("Bounded model checking of the real validate_prunable_backlink from an arbitrary stored latest entry: no operation, prune-flagged or not, "
                 "is accepted at or below the stored height, so nothing below an ingested prune point is ever stored again; newer prune points are still accepted."),
     level_note="Trusted: Kani/CBMC; Header::hash stub; relies on C03's height monotonicity for the step from 'stored latest' to 'every ingested prune point'.",
